@@ -581,7 +581,12 @@ fn check_model(
         req.replacen("c14 fco", "c14 cert", 1),
         if real_comps.is_empty() { "-" } else { &real_comps }
     ));
-    if cert != "valid=1" {
+    if cert == "valid=1-but-not-scc" {
+        rep.mismatch(
+            "the implementation's components are a valid order but not the strongly connected components (checker validScc)",
+            json!({"case": input, "request": req, "components": real_comps}),
+        );
+    } else if cert != "valid=1" {
         rep.violation(
             "the verified checker validOrder rejects the implementation's components: an item is missing, duplicated, or placed before something it references",
             "order:certificate",
